@@ -230,9 +230,14 @@ static int tmrcmp(void *my_data, void *node_data) {
     ev_src_t *key = (ev_src_t *)my_data;
     ev_src_t *src = (ev_src_t *)node_data;
 
-    const int ret = M_CMP(key->tmr_src.its.ns, src->tmr_src.its.ns);
+    int ret = M_CMP(key->tmr_src.its.ns, src->tmr_src.its.ns);
     /* Library's own timers (batch timeout, tokenbucket refill) never collide with user's timers with same period */
-    return ret ? ret : M_CMP(key->flags & M_SRC_INTERNAL, src->flags & M_SRC_INTERNAL);
+    ret = ret ? ret : M_CMP(key->flags & M_SRC_INTERNAL, src->flags & M_SRC_INTERNAL);
+    if (ret == 0 && (key->flags & M_SRC_INTERNAL)) {
+        /* ...nor with each other: they are told apart by what they belong to */
+        ret = M_CMP((uintptr_t)key->userptr, (uintptr_t)src->userptr);
+    }
+    return ret;
 }
 
 static int sgncmp(void *my_data, void *node_data) {
@@ -452,12 +457,13 @@ int register_mod_src(m_mod_t *mod, m_src_types type, const void *src_data,
     return ret;
 }
 
-int deregister_mod_src(m_mod_t *mod, m_src_types type, void *src_data, m_src_flags flags) {
+int deregister_mod_src(m_mod_t *mod, m_src_types type, void *src_data, m_src_flags flags, const void *userptr) {
     M_MOD_ASSERT(mod);
     M_MOD_CONSUME_TOKEN(mod);
 
     ev_src_t key;
     fill_key_src(&key, type, src_data, flags);
+    key.userptr = userptr;
     return m_bst_remove(mod->srcs[type], &key);
 }
 
@@ -502,7 +508,7 @@ _public_ int m_mod_src_register_fd(m_mod_t *mod, int fd, m_src_flags flags, cons
 _public_ int m_mod_src_deregister_fd(m_mod_t *mod, int fd) {
     M_PARAM_ASSERT(fd >= 0);
 
-    return deregister_mod_src(mod, M_SRC_TYPE_FD, (void *)&fd, 0);
+    return deregister_mod_src(mod, M_SRC_TYPE_FD, (void *)&fd, 0, NULL);
 }
 
 _public_ int m_mod_src_register_tmr(m_mod_t *mod, const m_src_tmr_t *its, m_src_flags flags, const void *userptr) {
@@ -514,7 +520,7 @@ _public_ int m_mod_src_register_tmr(m_mod_t *mod, const m_src_tmr_t *its, m_src_
 _public_ int m_mod_src_deregister_tmr(m_mod_t *mod, const m_src_tmr_t *its) {
     M_PARAM_ASSERT(its && its->ns > 0);
 
-    return deregister_mod_src(mod, M_SRC_TYPE_TMR, (void *)its, 0);
+    return deregister_mod_src(mod, M_SRC_TYPE_TMR, (void *)its, 0, NULL);
 }
 
 _public_ int m_mod_src_register_sgn(m_mod_t *mod, const m_src_sgn_t *sgs, m_src_flags flags, const void *userptr) {
@@ -526,7 +532,7 @@ _public_ int m_mod_src_register_sgn(m_mod_t *mod, const m_src_sgn_t *sgs, m_src_
 _public_ int m_mod_src_deregister_sgn(m_mod_t *mod, const m_src_sgn_t *sgs) {
     M_PARAM_ASSERT(sgs && sgs->signo > 0);
 
-    return deregister_mod_src(mod, M_SRC_TYPE_SGN, (void *)sgs, 0);
+    return deregister_mod_src(mod, M_SRC_TYPE_SGN, (void *)sgs, 0, NULL);
 }
 
 _public_ int m_mod_src_register_path(m_mod_t *mod, const m_src_path_t *pt, m_src_flags flags, const void *userptr) {
@@ -541,7 +547,7 @@ _public_ int m_mod_src_deregister_path(m_mod_t *mod, const m_src_path_t *pt) {
     M_PARAM_ASSERT(pt);
     M_PARAM_ASSERT(str_not_empty(pt->path));
 
-    return deregister_mod_src(mod, M_SRC_TYPE_PATH, (void *)pt, 0);
+    return deregister_mod_src(mod, M_SRC_TYPE_PATH, (void *)pt, 0, NULL);
 }
 
 _public_ int m_mod_src_register_pid(m_mod_t *mod, const m_src_pid_t *pid, m_src_flags flags, const void *userptr) {
@@ -553,7 +559,7 @@ _public_ int m_mod_src_register_pid(m_mod_t *mod, const m_src_pid_t *pid, m_src_
 _public_ int m_mod_src_deregister_pid(m_mod_t *mod, const m_src_pid_t *pid) {
     M_PARAM_ASSERT(pid && pid->pid > 0);
 
-    return deregister_mod_src(mod, M_SRC_TYPE_PID, (void *)pid, 0);
+    return deregister_mod_src(mod, M_SRC_TYPE_PID, (void *)pid, 0, NULL);
 }
 
 _public_ int m_mod_src_register_task(m_mod_t *mod, const m_src_task_t *tid, m_src_flags flags, const void *userptr) {
@@ -578,7 +584,7 @@ _public_ int m_mod_src_register_thresh(m_mod_t *mod, const m_src_thresh_t *thr, 
 _public_ int m_mod_src_deregister_thresh(m_mod_t *mod, const m_src_thresh_t *thr) {
     M_PARAM_ASSERT(thr && (thr->activity_freq > 0 || thr->inactive_ms > 0));
 
-    return deregister_mod_src(mod, M_SRC_TYPE_THRESH, (void *)thr, 0);
+    return deregister_mod_src(mod, M_SRC_TYPE_THRESH, (void *)thr, 0, NULL);
 }
 
 _public_ ssize_t m_mod_src_len(const m_mod_t *mod, m_src_types type) {
